@@ -58,97 +58,9 @@ theorem live_handle_callable (ops : List Op) (i : Nat) (h : Handle)
   · show (s.hs[i]?).map (fun h => callRes s h.k) = some h.expect
     rw [hi, Option.map_some, callRes_ok hc hk, hex]
 
-/-- a live package or a live handle of version k -/
-def RefersModule (s : St) (k : Nat) : Prop := k ∈ s.pkgs ∨ ∃ h ∈ s.hs, h.k = k
-
-/-- the live runtime that registered it, or a module somebody still refers to that cloned it -/
-def RefersConst (s : St) (r : Nat) : Prop :=
-  r ∈ s.rtConst ∨ ∃ k, RefersModule s k ∧ (s.info k).rt = r ∧ (s.info k).keepConst = true
-
-def RefersClos (s : St) (r : Nat) : Prop :=
-  r ∈ s.rtClos ∨ ∃ k, RefersModule s k ∧ (s.info k).rt = r ∧ (s.info k).keepClos = true
-
-theorem strong_zero_iff {s : St} (hI : Inv s) (k : Nat) : s.strong k = 0 ↔ ¬ RefersModule s k := by
-  rw [hI.strong_eq]
-  simp only [owners, RefersModule]
-  constructor
-  · intro h0
-    have a : s.pkgs.count k = 0 := by omega
-    have b : s.hs.countP (fun h => h.k == k) = 0 := by omega
-    rintro (hp | ⟨h, hh, e⟩)
-    · exact (List.count_eq_zero.1 a) hp
-    · have := (List.countP_eq_zero.1 b) h hh
-      simp [e] at this
-  · intro hn
-    have a : s.pkgs.count k = 0 := List.count_eq_zero.2 (fun hp => hn (Or.inl hp))
-    have b : s.hs.countP (fun h => h.k == k) = 0 :=
-      List.countP_eq_zero.2 (fun h hh hp => hn (Or.inr ⟨h, hh, by simpa using hp⟩))
-    omega
-
-theorem alive_iff {s : St} (hI : Inv s) (k : Nat) : k ∈ s.alive ↔ RefersModule s k := by
-  have hz := strong_zero_iff hI k
-  constructor
-  · intro hk
-    apply Classical.byContradiction
-    intro hn
-    have h0 := hz.2 hn
-    have := hI.alive_cnt k
-    simp only [h0, Nat.lt_irrefl, if_false] at this
-    exact (List.count_eq_zero.1 this) hk
-  · intro hr
-    have : ¬ s.strong k = 0 := fun h0 => (hz.1 h0) hr
-    exact hI.toInvCore.mem_alive (by omega)
-
-theorem constRc_zero_iff {s : St} (hI : Inv s) (r : Nat) : s.constRc r = 0 ↔ ¬ RefersConst s r := by
-  rw [hI.constRc_eq]
-  constructor
-  · intro h0
-    have a : s.rtConst.count r = 0 := by omega
-    have b : s.alive.countP (constPred s.info r) = 0 := by omega
-    rintro (hp | ⟨k, hk, e, hkc⟩)
-    · exact (List.count_eq_zero.1 a) hp
-    · have := (List.countP_eq_zero.1 b) k ((alive_iff hI k).2 hk)
-      simp [constPred, e, hkc] at this
-  · intro hn
-    have a : s.rtConst.count r = 0 := List.count_eq_zero.2 (fun hp => hn (Or.inl hp))
-    have b : s.alive.countP (constPred s.info r) = 0 :=
-      List.countP_eq_zero.2 (fun k hk hp => by
-        simp only [constPred, Bool.and_eq_true, beq_iff_eq] at hp
-        exact hn (Or.inr ⟨k, (alive_iff hI k).1 hk, hp.2, hp.1⟩))
-    omega
-
-theorem closRc_zero_iff {s : St} (hI : Inv s) (r : Nat) : s.closRc r = 0 ↔ ¬ RefersClos s r := by
-  rw [hI.closRc_eq]
-  constructor
-  · intro h0
-    have a : s.rtClos.count r = 0 := by omega
-    have b : s.alive.countP (closPred s.info r) = 0 := by omega
-    rintro (hp | ⟨k, hk, e, hkc⟩)
-    · exact (List.count_eq_zero.1 a) hp
-    · have := (List.countP_eq_zero.1 b) k ((alive_iff hI k).2 hk)
-      simp [closPred, e, hkc] at this
-  · intro hn
-    have a : s.rtClos.count r = 0 := List.count_eq_zero.2 (fun hp => hn (Or.inl hp))
-    have b : s.alive.countP (closPred s.info r) = 0 :=
-      List.countP_eq_zero.2 (fun k hk hp => by
-        simp only [closPred, Bool.and_eq_true, beq_iff_eq] at hp
-        exact hn (Or.inr ⟨k, (alive_iff hI k).1 hk, hp.2, hp.1⟩))
-    omega
-
-theorem exactly_once_of {P Q : Prop} [Decidable P] {n : Nat} (h : n = if P then 1 else 0) (hpq : P ↔ Q) :
-    (n = 1 ↔ Q) ∧ (n = 0 ↔ ¬ Q) ∧ n ≤ 1 := by
-  by_cases hp : P
-  · simp only [hp, if_true] at h; subst h
-    have q := hpq.1 hp
-    refine ⟨⟨fun _ => q, fun _ => rfl⟩, ⟨fun e => ?_, fun nq => absurd q nq⟩, Nat.le_refl 1⟩
-    exact absurd e (by decide)
-  · simp only [hp, if_false] at h; subst h
-    have nq : ¬ Q := fun q => hp (hpq.2 q)
-    refine ⟨⟨fun e => ?_, fun q => absurd q nq⟩, ⟨fun _ => nq, fun _ => rfl⟩, Nat.zero_le 1⟩
-    exact absurd e (by decide)
-
-/-- how often `x` has been released so far is 1 exactly when `Gone`, 0 exactly when not, never more -/
-def ExactlyOnce (n : Nat) (Gone : Prop) : Prop := (n = 1 ↔ Gone) ∧ (n = 0 ↔ ¬ Gone) ∧ n ≤ 1
+/- `RefersModule s k` (a live package or handle of version k), `RefersConst s r` / `RefersClos s r` (the live
+   runtime that registered it, or a module somebody still refers to that cloned it) and
+   `ExactlyOnce n Gone := (n = 1 ↔ Gone) ∧ (n = 0 ↔ ¬Gone) ∧ n ≤ 1` are defined in Lemmas/LifetimeOps.lean. -/
 
 /-- **T2.** After any history (hence after every prefix of every history),
     each resource has been released exactly once if it was created and no live
@@ -195,6 +107,23 @@ theorem consts_before_code (s : St) (k : Nat) (hm : s.mapped k = true) :
   · rw [D.mapped, upd_same]
   · rw [D.rel]; simp [scHit]
 
+/-- **T4.** Packages compiled independently never influence each other: an
+    operation on package k (compile k, get / clone / call / drop a handle of k,
+    drop package k), performed after any history, changes nothing observable
+    about any other version j — its package, its code, its script constants,
+    and the result of calling each of its live handles (`obs`). -/
+theorem independent (ops : List Op) (op : Op) (k j : Nat)
+    (ht : target (run facts ops) op = some k) (hjk : j ≠ k) :
+    obs (stepV facts (run facts ops) op) j = obs (run facts ops) j := by
+  have hG := good_of_goodB facts_good
+  have hI := inv ops
+  unfold stepV
+  split
+  · rename_i hv
+    obtain ⟨hp, hh, hinfo, hcomp⟩ := frame hG hI op hv k j ht hjk
+    exact obs_eq_of_frame hI (step_inv hG hI op hv) j hp hh hinfo hcomp
+  · rfl
+
 /-! ### non-vacuity -/
 
 /-- a hot-reload history: runtime with constant and closure, version 1 compiled
@@ -227,5 +156,13 @@ example : callHandle (run { facts with handleHoldsArc := false } reload) 0 = som
 
 /-- the mapped-code hypothesis of T3 is met by every freshly compiled module -/
 example : (run facts [.buildRuntime 0, .compile 0 1 1 false false 7]).mapped 1 = true := by decide
+
+/-- T4 is not vacuous: with a live handle of version 1, dropping the package of
+    version 2 is an operation on 2 ≠ 1, version 1 has a callable handle, and version 2's own
+    observables do change -/
+example : let s := run facts (reload.take 7)
+    target s (.dropPackage 2) = some 2 ∧ (obs s 1).calls = [(.ok 1240, .ok 1240)]
+      ∧ obs (stepV facts s (.dropPackage 2)) 2 ≠ obs s 2 := by
+  decide
 
 end RotoV.C11
